@@ -233,7 +233,70 @@ def r2_page_geometry(ctx):
     ctx.floor(rule, n, 1, "page-to-entry index computations in ArchiveIndex")
 
 
+def r3_merge_advances(ctx):
+    """k-way merge of archive indices into an archive group: every entry popped from the heap is replaced by the next entry of the
+    archive it came from - also when the popped entry itself is a duplicate that is not written. A path through the loop body that
+    skips the advance silently drops the rest of that archive: keys that were indexed resolve to nothing."""
+    from .c12 import every_iteration
+    from .lib import gate_of
+    rule = "C03.R3"
+    ctx.rule(rule, "archive_group::build_merged: the push of the popped source's successor (or its bounds test) lies on every iteration path of the pop loop")
+    bs = [b for b in ctx.prog.bodies.values() if b.krate == "cascette_formats" and b.item == "build_merged" and not b.root and re.search(r"archive/archive_group\.rs$", b.file or "")]
+    if not ctx.anchor(rule, bs, "archive_group::build_merged"):
+        return
+    b = bs[0]
+    ctx.saw(b)
+    pops = b.calls_matching(r"BinaryHeap::<T(, A)?>::pop$")
+    if not ctx.anchor(rule, pops, "heap.pop() loop in build_merged"):
+        return
+    pop = pops[0]
+    loop_blocks = {x for x in b.reachable(b.succ[pop.bb]) if pop.bb in b.reachable(b.succ[x])}
+    pushes = [c for c in b.calls_matching(r"BinaryHeap::<T(, A)?>::push$") if c.bb in loop_blocks]
+    if not ctx.anchor(rule, pushes, "heap.push() of the successor inside the pop loop"):
+        return
+    ok = any(every_iteration(b, pop, p.bb) or every_iteration(b, pop, gate_of(b, loop_blocks, p.bb)) for p in pushes)
+    ctx.check(ok, rule, [b.id, "source-advanced-every-pop"], "every popped entry is replaced by its source's next entry",
+              "build_merged has a path through the merge loop (an early `continue`, e.g. for a duplicate key) that does not push the next entry of the archive the "
+              "popped entry came from: everything behind that entry in that archive is dropped from the group index - indexed keys resolve to nothing",
+              pushes[0].loc(), sample={"pop": pop.loc(), "push": [p.loc() for p in pushes]})
+
+
+def r4_one_id_per_delta(ctx):
+    """root blocks store FileDataIDs as a delta list next to parallel arrays (content keys, name hashes) that are zipped with the
+    decoded ids by position: the decoder used by the block parsers yields exactly one id per delta. A decoder that skips a delta
+    (say on arithmetic overflow) shifts every later record onto another file's key."""
+    from .c12 import every_iteration
+    rule = "C03.R4"
+    ctx.rule(rule, "every FileDataId-decoding loop reachable from the root block parsers pushes one id on every iteration path")
+    ents = [b.id for b in ctx.prog.bodies.values() if b.krate == "cascette_formats" and not b.root and re.search(r"root/block\.rs$", b.file or "")
+            and re.match(r"parse_v\d\w*block|parse_v1_block|parse_v2_block", b.item or "")]
+    if not ctx.anchor(rule, ents, "root block parsers (parse_v1_block / parse_v2_block)"):
+        return
+    cl = ctx.prog.closure_of(ents)
+    n = 0
+    for bid in sorted(cl):
+        b = ctx.prog.bodies.get(bid)
+        if b is None or b.krate != "cascette_formats":
+            continue
+        pushes = [c for c in b.calls_matching(r"\bVec::<T, A>::push$") if len(c.args) > 1 and op_local(c.args[1]) is not None and
+                  re.search(r"\bFileDataId$", b.local_ty(op_local(c.args[1])) or "")]
+        nxs = [c for c in b.calls if re.search(r"\bIterator>?::next$", c.orig_name or c.name)]
+        for p_ in pushes:
+            loops = [nx for nx in nxs if p_.bb in b.reachable(b.succ[nx.bb]) and nx.bb in b.reachable(b.succ[p_.bb])]
+            if not loops:
+                continue
+            n += 1
+            ctx.saw(b)
+            ctx.check(every_iteration(b, loops[0], p_.bb), rule, [b.id, "one-id-per-delta"], "the decoder pushes an id for every delta",
+                      "%s (used by the root block parsers) can finish an iteration over the delta list without pushing an id: the id list comes out shorter than "
+                      "the parallel content-key / name-hash arrays it is zipped with, so records shift - inserted FileDataIDs resolve to nothing or to another "
+                      "file's content key" % ctx._stable(b.id), p_.loc())
+    ctx.floor(rule, n, 1, "FileDataId decoding loops reachable from the root block parsers")
+
+
 def run(ctx):
+    r4_one_id_per_delta(ctx)
+    r3_merge_advances(ctx)
     r1_layout_predicates(ctx)
     r2_page_geometry(ctx)
 
